@@ -124,7 +124,7 @@ func genJ(r *rand.Rand, depth int) interface{} {
 
 // canonNum maps every integer-valued number to int64 and everything else to a
 // marker the model cannot produce.
-func canonJ(v interface{}) interface{} {
+func luajsonCanonJ(v interface{}) interface{} {
 	switch x := v.(type) {
 	case nil, bool, string:
 		return x
@@ -148,13 +148,13 @@ func canonJ(v interface{}) interface{} {
 	case []interface{}:
 		out := make([]interface{}, len(x))
 		for i, e := range x {
-			out[i] = canonJ(e)
+			out[i] = luajsonCanonJ(e)
 		}
 		return out
 	case map[string]interface{}:
 		out := J{}
 		for k, e := range x {
-			out[k] = canonJ(e)
+			out[k] = luajsonCanonJ(e)
 		}
 		return out
 	}
@@ -168,7 +168,7 @@ func parseJSONBytes(b []byte) (interface{}, error) {
 	if err := d.Decode(&v); err != nil {
 		return nil, err
 	}
-	return canonJ(v), nil
+	return luajsonCanonJ(v), nil
 }
 
 // goValue rebuilds a Go value from a parsed (UseNumber) JSON document for replay.
@@ -267,7 +267,7 @@ func doRoundtrip(mode string, v interface{}) interface{} {
 }
 
 func emitRoundtrip(c *Ctx, mode string, v interface{}) {
-	c.Emit("roundtrip", J{"mode": mode, "v": canonJ(v)}, doRoundtrip(mode, v))
+	c.Emit("roundtrip", J{"mode": mode, "v": luajsonCanonJ(v)}, doRoundtrip(mode, v))
 }
 
 // ---------------------------------------------------------------- Lua tables
